@@ -3,7 +3,7 @@
 From Coq Require Import String List NArith Lia.
 From Coq Require Import Init.Byte.
 From Ax Require Import Lib.Bytes Lib.Mvx Lib.Keccak Model.Check Model.Env Model.Gateway Model.GatewayCheck Model.Governance
-     Proofs.GatewayMsgs Proofs.GovFacts Proofs.GovWorld Proofs.GovGwOrigin Proofs.GovCount Proofs.GovCountOp Gen.Generated.
+     Proofs.GatewayMsgs Proofs.GovFacts Proofs.GovWorld Proofs.GovGwOrigin Proofs.GovCount Proofs.GovCountOp Proofs.GovExcl Gen.Generated.
 Import ListNotations.
 Open Scope N_scope.
 
@@ -102,6 +102,23 @@ Section C12.
       Forall (fun go => In (VGateway go) ops \/ gis_val go) pre /\
       approve_messages H verify (grun H verify (w_gw w0) pre) raw p <> None.
   Proof. exact (command_traces_to_batch H verify). Qed.
+  (* "time locks and operator approvals change only through a governance command" (Proofs/GovExcl.v): apart from a command, an approval
+     changes only when executeOperatorProposal consumes it or when the callback of a FAILED operator dispatch that is still marked in flight
+     gives it back (a cancel-approval command in between clears the marker: then nothing comes back); the same for etas: see
+     c11_eta_changes_only_by and c11_callback_restores_only_onto_empty *)
+  Theorem c12_approval_changes_only_by : forall w o h,
+    getN (gv_approvals (w_gov (fst (vstep H verify true w o)))) h <> getN (gv_approvals (w_gov w)) h ->
+    match o with VExecute _ _ _ _ _ | VExecOperator _ _ _ _ | VCallback _ _ => True | _ => False end.
+  Proof. exact (approval_changes_only_by H verify). Qed.
+  Theorem c12_callback_restores_approval_only_in_flight : forall w self id h,
+    getN (gv_approvals (w_gov (fst (vstep H verify true w (VCallback self id))))) h <> getN (gv_approvals (w_gov w)) h ->
+    exists p rets, find_pending id (w_pend w) = Some p /\ gp_stage p = AwaitCallback false rets /\ gp_kind p = POperator /\ gp_hash p = h /\
+                   getN (gv_op_flight (w_gov w)) h <> 0 /\ getN (gv_approvals (w_gov (fst (vstep H verify true w (VCallback self id))))) h = 1.
+  Proof. exact (callback_restores_approval_only_in_flight H verify). Qed.
+  Theorem c12_eta_changes_only_by : forall w o h,
+    getN (gv_eta (w_gov (fst (vstep H verify true w o)))) h <> getN (gv_eta (w_gov w)) h ->
+    match o with VExecute _ _ _ _ _ | VExecProposal _ _ _ _ | VCallback _ _ => True | _ => False end.
+  Proof. exact (eta_changes_only_by H verify). Qed.
 End C12.
 
 Print Assumptions c12_execute_requires.
@@ -112,6 +129,8 @@ Print Assumptions c12_cancelled_approval_stays_cancelled.
 Print Assumptions c12_withdraw_self_only.
 Print Assumptions c12_one_success_per_approval.
 Print Assumptions c12_command_traces_to_batch.
+Print Assumptions c12_approval_changes_only_by.
+Print Assumptions c12_callback_restores_approval_only_in_flight.
 
 Example pin_gov_endpoints : gen_gov_endpoints = [("executeProposal", "*"); ("executeOperatorProposal", "*"); ("withdraw", ""); ("transferOperatorship", "");
    ("execute", ""); ("withdrawRefundToken", "")]%string := eq_refl.
@@ -150,3 +169,6 @@ Example c12_end_to_end_nonvacuous :
   end.
 Proof. vm_compute. repeat split; try reflexivity; discriminate. Qed.
 Check c12_command_traces_to_batch.
+
+Check c12_approval_changes_only_by.
+Check c12_callback_restores_approval_only_in_flight.
